@@ -211,6 +211,33 @@ async def kiq_case(asyncs, fail_at):
     elif [(e[1], e[2]) for e in post] != [(0, '02'), (2, '02')] or raised: pr.append(f"C10: post_send hooks saw {post}, raised {raised}")
     return pr
 
+async def kiq_history():
+    """several sends through ONE broker whose middleware list changes in between without changing its length (replace, reorder, re-assign) and by growing:
+    every send must run the hooks of the middlewares registered AT THAT SEND, in list order"""
+    from taskiq import InMemoryBroker, TaskiqMiddleware
+    fresh_registry(); ev = []
+    class B(InMemoryBroker):
+        async def kick(self, m): ev.append(('kick', m.labels.get('trail')))
+    def mk(tag):
+        class M(TaskiqMiddleware):
+            def pre_send(self, message): ev.append(('pre_send', tag)); m = message.model_copy(deep=True); m.labels['trail'] = str(message.labels.get('trail', '')) + tag; return m
+            async def post_send(self, message): ev.append(('post_send', tag))
+        return M()
+    b = B(); a_, b_, c_ = mk('A'), mk('B'), mk('C')
+    async def t(): pass
+    task = b.register_task(t, task_name='t'); pr = []
+    async def send(expect, what):
+        del ev[:]; await task.kiq()
+        want = [('pre_send', x) for x in expect] + [('kick', ''.join(expect) or None)] + [('post_send', x) for x in expect]
+        if ev != want: pr.append(f"C10: send after {what}: registered middlewares {expect}, observed {ev}, expected {want}")
+    b.add_middlewares(a_, b_); await send(['A', 'B'], "registering A, B")
+    b.middlewares[0] = c_; await send(['C', 'B'], "replacing A by C in place (list length unchanged)")
+    b.middlewares.reverse(); await send(['B', 'C'], "reversing the list (list length unchanged)")
+    b.middlewares = [a_, c_]; await send(['A', 'C'], "assigning a new list of the same length")
+    b.add_middlewares(b_); await send(['A', 'C', 'B'], "adding B")
+    del b.middlewares[:]; await send([], "removing all middlewares")
+    return pr
+
 # ---------------------------------------------------------------- (d)
 def loop_case(start_off, horizon, oneshots, crons, failing_source, failing_send, slow_listing=0.0, host_offset_h=0.0, check_oneshots=None, stable_ids=False, entry='loop', base_hms=(12, 0, 0), slow_send=0.0, twin_source=False):
     """slow_send: every send takes that long (its start is what counts); twin_source: a second source lists the same schedules under the same ids. oneshots: list of offsets (s) from BASE; crons: list of cron expressions"""
@@ -347,6 +374,9 @@ def run(sc):
             for fail_at in (None, 'kick'):
                 pr = asyncio.run(kiq_case(asyncs, fail_at)); n += 1
                 if pr: fails.append({'key': f"kiq/{asyncs}/{fail_at}", 'failed_clauses': pr})
+    if 'kiq' in which:
+        pr = asyncio.run(kiq_history()); n += 1
+        if pr: fails.append({'key': 'kiq/history-middleware-list-changes', 'failed_clauses': pr})
     if 'loop' in which:
         for start_off in (0.0, 0.4, 30.0, 59.7):
             for oneshots in ([90.0], [30.0, 60.0, 60.5, 61.0, 61.5], [59.9, 120.0, 121.0], [-5.0, 200.0], [30.2, 45.1, 60.3, 118.05]):          # the last set: due times with a small sub-second part, picked up by a first poll that starts later within its second
